@@ -10,19 +10,21 @@ import time
 from sim import kernel
 
 # property -> (engine module name, mode)
+# property -> parts [(engine module name, mode)]; a property with several parts
+# is decided by all of them (one evidence file, per-part coverage inside)
 PROPS = {
-    "C08": ("simgraph", "c08"),
-    "C09": ("simgraph", "c09"),
-    "C18": ("simflow", "c18"),
-    "C19": ("simbuild", "c19"),
-    "C06": ("simpair", "c06"),
-    "C04": ("simworker", "c04"),
+    "C08": [("simgraph", "c08")],
+    "C09": [("simgraph", "c09")],
+    "C18": [("simflow", "c18")],
+    "C19": [("simbuild", "c19"), ("simfull", "c19")],
+    "C06": [("simpair", "c06"), ("simfull", "c06")],
+    "C04": [("simworker", "c04")],
 }
 
 
-def engine_for(prop):
+def engine_for(prop, part=0):
   import importlib
-  name, mode = PROPS[prop]
+  name, mode = PROPS[prop][part]
   return importlib.import_module("sim." + name), mode
 
 
@@ -39,21 +41,53 @@ def cmd_setup(_):
     return 2
   print("setup ok: typegraph extension at", out)
   # warm any engine fixtures
-  for prop in sorted(PROPS):
-    try:
-      eng, _ = engine_for(prop)
-    except ImportError:
-      continue
-    if hasattr(eng, "setup"):
-      eng.setup()
+  pass
   return 0
 
 
 def run_batch(prop, tier, runs=None, budget=None, workers=None, quiet=False,
               write=True, seed=None):
-  """Runs one batch of simulated runs for a property. Returns (rc, summary)."""
-  eng, mode = engine_for(prop)
+  """Runs every part of a property's check; one evidence file."""
   seed = kernel.verif_seed() if seed is None else seed
+  t0 = time.time()
+  rc = 0
+  summaries = []
+  for part in range(len(PROPS[prop])):
+    prc, summ = _run_part(prop, part, tier, runs, budget, workers, quiet, seed)
+    summaries.append(summ)
+    if prc == 1 or rc == 1:
+      rc = 1
+    elif prc == 2 or rc == 2:
+      rc = 2
+  covs = [s_["coverage"] for s_ in summaries]
+  if len(covs) == 1:
+    coverage = covs[0]
+  else:
+    coverage = {
+        "evaluations": sum(c["evaluations"] for c in covs),
+        "distinct_nontrivial": sum(c["distinct_nontrivial"] for c in covs),
+        "rule": " || ".join("[%s] %s" % (PROPS[prop][i][0], c["rule"])
+                            for i, c in enumerate(covs)),
+        "samples": [x for c in covs for x in c["samples"][:2]],
+        "parts": {PROPS[prop][i][0]: {k: v for k, v in c.items() if k != "samples"}
+                  for i, c in enumerate(covs)},
+    }
+  n_new = sum(len(s_["new"]) for s_ in summaries)
+  if write and os.environ.get("VERIF_NO_EVIDENCE") != "1":
+    eng0, mode0 = engine_for(prop, 0)
+    assum = []
+    for part in range(len(PROPS[prop])):
+      e, md = engine_for(prop, part)
+      assum.extend(a for a in e.assumptions(md) if a not in assum)
+    kernel.write_evidence(prop, tier, seed, coverage, time.time() - t0, n_new, assum)
+  return rc, {"parts": summaries, "coverage": coverage,
+              "agg": summaries[0]["agg"], "new": [v for s_ in summaries for v in s_["new"]]}
+
+
+def _run_part(prop, part, tier, runs, budget, workers, quiet, seed):
+  """Runs one batch of simulated runs for one part. Returns (rc, summary)."""
+  eng, mode = engine_for(prop, part)
+  write = False
   plan = eng.plan(mode, tier)
   target = runs or plan["runs"]
   budget_s = budget or plan["budget_s"]
@@ -85,9 +119,9 @@ def run_batch(prop, tier, runs=None, budget=None, workers=None, quiet=False,
       wave.append(eng.chunk_args(seed, mode, tier, next_index, hi,
                                  want_samples=(3 if next_index == 0 else 0)))
       next_index = hi
-    for part in kernel.pmap(eng.run_chunk, wave, workers=workers,
+    for piece in kernel.pmap(eng.run_chunk, wave, workers=workers,
                             cap_s=plan.get("cap_s", 900)):
-      eng.merge_agg(agg, part)
+      eng.merge_agg(agg, piece)
     waves += 1
   wall = time.time() - t0
   if hasattr(eng, "sanity"):
@@ -117,11 +151,20 @@ def run_batch(prop, tier, runs=None, budget=None, workers=None, quiet=False,
   reported = 0
   unreproduced = 0
   for v in new_viol[:5]:
-    path = kernel.write_replay(prop, PROPS[prop][0], seed, v["index"],
+    path = kernel.write_replay(prop, PROPS[prop][part][0], seed, v["index"],
                                v["trace"], v["violation"])
     ok = _replay_fresh(path)
     if ok:
       lines.append("VIOLATION property=%s replay=%s" % (prop, path))
+      reported += 1
+      rc = 1
+    elif v["violation"].get("class") == "NONDET":
+      # two freshly built copies of the same graph disagreed in-process; the
+      # disagreement depends on heap layout, so a fresh interpreter may need
+      # more attempts than the replay makes. Still a violation of the tree.
+      lines.append("VIOLATION property=%s replay=%s" % (prop, path))
+      lines.append("NOTE: nondeterministic violation; the replay file retries "
+                   "with 160 heap perturbations and did not hit it this time")
       reported += 1
       rc = 1
     else:
@@ -140,9 +183,9 @@ def run_batch(prop, tier, runs=None, budget=None, workers=None, quiet=False,
     kernel.write_evidence(prop, tier, seed, coverage, wall,
                           len(new_viol), eng.assumptions(mode))
   if not quiet:
-    print("%s %s: %d runs in %.1fs (%d/h), %d distinct non-trivial, "
+    print("%s %s [%s]: %d runs in %.1fs (%d/h), %d distinct non-trivial, "
           "%d violations (%d known)" % (
-              prop, tier, agg["runs"], wall, coverage["runs_per_hour"],
+              prop, tier, PROPS[prop][part][0], agg["runs"], wall, coverage["runs_per_hour"],
               coverage["distinct_nontrivial"], len(agg["violations"]),
               len(agg["violations"]) - len(new_viol)))
     for ln in lines:
@@ -176,9 +219,10 @@ def cmd_replay(a):
   with open(a.path) as f:
     doc = json.load(f)
   prop = doc["property"]
-  eng, _ = engine_for(prop)
+  import importlib
+  eng = importlib.import_module("sim." + doc["engine"])
   if hasattr(eng, "prepare"):
-    eng.prepare(PROPS[prop][1])
+    eng.prepare(None)
   v = eng.replay(doc)
   if v is None:
     print("replay of %s: no violation" % a.path)
@@ -203,7 +247,7 @@ def cmd_selftest_sensitivity(a):
 
 def cmd_digests(a):
   """Prints run digests for a range of indices (used by the determinism test)."""
-  eng, mode = engine_for(a.prop)
+  eng, mode = engine_for(a.prop, a.part)
   if hasattr(eng, "prepare"):
     eng.prepare(mode)
   seed = kernel.verif_seed()
@@ -259,6 +303,7 @@ def main(argv):
   g.add_argument("hi", type=int)
   g.add_argument("--workers", type=int, default=None)
   g.add_argument("--chunk", type=int, default=None)
+  g.add_argument("--part", type=int, default=0)
   g.set_defaults(fn=cmd_digests)
   a = ap.parse_args(argv)
   try:
